@@ -34,7 +34,7 @@ def ids(term):
     return [int(a) for a in re.findall(r"(\d+)", term or "")]
 
 
-SPEC_KEYS = ("id", "entrance", "endpoint", "gen", "class", "items", "duty_type", "slot_add")
+SPEC_KEYS = ("id", "entrance", "endpoint", "gen", "class", "items", "duty_type", "slot_add", "duty_slot", "boundary")
 
 
 def spec_of(c):
@@ -59,6 +59,7 @@ def main():
         "signing root (domain, fork, epoch, message root) is an injective function of the signed content (hypothesis of C10_alteration_rejected, not an axiom)",
         "the abstract description of a submission (which validator the component resolves it to, signing root of the object as submitted, signature term, proposal-equals-agreed flag, inner-selection-proof flag) is computed by the harness with oracles independent of the code under test: own signing-root computation from the raw eth2 objects, the table of signatures the harness made, its validator tables, and what its environment callbacks (duty definitions, pubkey-by-attestation, validator set) answered",
         "error classes are compared up to 'some signature check failed' (the validator API reports an inner selection-proof failure with the same text as an outer signature failure); every rejection ahead of any signature check (validator/duty lookup, malformed object) is one class EPre",
+        "the expected-signature oracle takes domain name and signing epoch from the OBJECT per the consensus spec (attestation: target epoch; exit: exit epoch; registration: genesis domain; others: epoch of the object's slot), never from core/eth2signeddata.go",
         "endpoints not covered: SubmitValidatorRegistrations takes nothing in (checked: it never calls a subscriber); builder registrations are created by charon itself, not submitted by the VC; phase0/altair proposals are refused by the code ('unsupported version') and not generated; the HTTP router/JSON decoding in front of the Component is not driven (C14 covers decoding)",
         "parsigex is driven through the stream handler it registers (p2p.RegisterHandler) on a stub host, not over a libp2p network; the sender identity is not used by the verifier",
         "reflection enumerates leaf fields of the raw eth2 structures, first two (thorough: six) elements of every list; a field whose alteration does not change the signing root (signature-independent metadata, e.g. aggregation bits, blobs) is expected to be let in and is checked as such",
@@ -84,7 +85,7 @@ def main():
                           "(NewParSigEx + NewEth2Verifier + NewDutyGater); non-trivial = the request carries an alteration of an otherwise valid submission "
                           "(each reflection-enumerated leaf field with the original signature; the same re-signed with the right share; wrong share; wrong validator; other domain; other fork; zero/random/infinity/foreign-key signature; "
                           "validator unknown to the beacon node / not in the lock / index of another validator; peers: out-of-range/zero/negative/other share index, entry filed under another/unknown public key, "
-                          "duty outside the gater window, invalid duty type, bare-signature duty type, duty-type confusion, one bad entry among good ones at each position); distinct by hash of (endpoint, type, class, label)")
+                          "duty outside the gater window (epoch offsets, the exact first/last slot of the window, and absolute slots 2^31, 2^53, 2^60, 2^63-1, 2^63, 2^64-1 around validly signed objects), objects whose own signing epoch is the first epoch of a fork of the beacon mock (2048, 50688; attestations with the slot still in the previous fork) signed for the own epoch and with the neighbouring fork's domain, invalid duty type, bare-signature duty type, duty-type confusion, one bad entry among good ones at each position); distinct by hash of (endpoint, type, class, label)")
     table = collections.defaultdict(lambda: collections.Counter())
     outcome = collections.Counter()
     pre_texts = collections.Counter()
